@@ -226,6 +226,9 @@ func main() {
 			Params: params, Samples: *samples, TimeLimit: *timeLimit, Solver: *solver}
 		r := Explore(P, fn, cfg)
 		results = append(results, r)
+		if r.Truncated {
+			fmt.Fprintf(os.Stderr, "gosym: %s TRUNCATED by path/time budget\n", name)
+		}
 		fmt.Fprintf(os.Stderr, "gosym: %s %v paths=%v forks=%d asserts=%d queries=%d solver=%.1fs wall=%.1fs cex=%d unknown=%d unsupported=%d budget=%d\n",
 			name, params, r.Paths, r.Forks, r.AssertCount, r.Queries, r.SolverSec, r.WallSec, len(r.Cex), len(r.Unknowns), len(r.Unsupported), len(r.Budget))
 		for _, u := range r.Unsupported {
